@@ -343,6 +343,27 @@ def case(item):
             if early is not None:
                 run_fault("early-epoch", {"fault": "early-epoch", "at": i},
                           R[:i] + [early] + R[i:], i)
+        # (c2) records without any protection spliced into the stream (an
+        # attacker needs no key for these): alerts, CCS, handshake and
+        # application data, at every position including the very first
+        # record of the epoch
+        hv = bytes([3, 3]) if tls13 else bytes([v[0], v[1]])
+        plain = [("alert-close-notify", 21, b"\x01\x00"),
+                 ("alert-fatal", 21, b"\x02\x28"),
+                 ("alert-warning-other", 21, b"\x01\x5a"),
+                 ("alert-one-byte", 21, b"\x01"),
+                 ("ccs", 20, b"\x01"),
+                 ("hello-request", 22, b"\x00\x00\x00\x00"),
+                 ("key-update", 22, b"\x18\x00\x00\x01\x00"),
+                 ("appdata", 23, b"plaintext"),
+                 ("appdata-empty", 23, b"")]
+        for i in range(n + 1):
+            for (pname, ptype, pbody) in plain:
+                prec = bytes([ptype]) + hv + struct.pack(">H", len(pbody)) + \
+                    pbody
+                run_fault("inject-plaintext", {"fault": "inject-plaintext",
+                                               "what": pname, "at": i},
+                          R[:i] + [prec] + R[i:], i)
         # (d) correctly keyed forgeries from the peer
         def forge(cls, key, **kw):
             rcf = copy.deepcopy(rc0)
@@ -410,6 +431,18 @@ def case(item):
             fails = judge(obs, b"old-key", False, b"")
             note("keyupdate-old-epoch", {"fault": "keyupdate-old-epoch"},
                  obs, fails)
+            # an unprotected alert as the first record of the new epoch
+            for (pname, pbody) in (("alert-close-notify", b"\x01\x00"),
+                                   ("alert-fatal", b"\x02\x28")):
+                prec = b"\x15\x03\x03" + struct.pack(">H", len(pbody)) + \
+                    pbody
+                obs = deliver_and_read(base, direction,
+                                       b"".join(old + ku + [prec] + new))
+                fails = judge(obs, b"old-key", False, b"")
+                note("inject-plaintext", {"fault": "inject-plaintext",
+                                          "what": pname,
+                                          "at": "after-keyupdate"}, obs,
+                     fails)
     rec["sigs"] = sorted(rec["sigs"], key=repr)
     return rec
 
